@@ -280,7 +280,10 @@ def _lfda_case(spec, j):
   i = spec['i']
   variant = ['plain', 'unbalanced', 'plain', 'offset', 'int', 'illcond',
              'small_scale'][i % 7]
-  ds = D.well_formed(rng, dmax=6, variant=variant, nmax=60,
+  # (up to 8 features: the documented default k = min(7, d - 1) stops
+  # growing at d = 8; classes then need more than 8 members to see it)
+  ds = D.well_formed(rng, dmax=8, variant=variant,
+                     nmax=60 if i % 4 else 110,
                      n_classes=[None, 2][i % 5 == 4],
                      labels=['range', 'sparse'][i % 2])
   ds['X'] = np.asarray(ds['X'], dtype=float) if i % 3 else ds['X']
